@@ -131,7 +131,8 @@ prop('C20',
      [Stage('hist', ['harness/mlog.c'], MLOG, preset='asan', nproc=16,
             args={'quick': ['--extra', 'hist'], 'thorough': ['--extra', 'hist']},
             needs_min={'get_line_comparisons': 100000, 'histories_passing_256_or_refusing_nice': 100,
-                       'messages_with_empty_text': 1000}),
+                       'messages_with_empty_text': 1000, 'messages_with_star_width_or_precision': 1000,
+                       'messages_with_percent_sign_in_text': 1000}),
       Stage('wraphook', ['harness/mlog.c'], MLOG, preset='asan', nproc=16,
             args={'quick': ['--extra', 'wraphook'], 'thorough': ['--extra', 'wraphook']},
             needs_min={'histories_crossing_counter_fold(hook)': 50}),
